@@ -113,8 +113,9 @@ func (coin Coin) Minus(value Coin) (Coin, error) {
 		coin.Amount = NewAmount(0)
 	}
 
-	if coin.Currency.Name != value.Currency.Name {
-		logger.Fatal("Mismatching currencies", coin, value)
+	if coin.Currency.Name != value.Currency.Name || value.Amount == nil {
+		// the subtrahend comes from transaction input: refuse it instead of halting the node
+		return coin, ErrMismatchingCurrency
 	}
 
 	base := NewAmount(0)
